@@ -10,6 +10,8 @@
 """
 import copy
 import json
+import os
+import random
 import vlib
 
 QUICK_MC = ["MC_Krill_q_chain.cfg", "MC_Krill_q_roll.cfg",
@@ -56,6 +58,8 @@ def behaviour_of(segment):
             continue
         if e in ("Settled", "NotSettled", "abort"):
             continue
+        if e == "reset":
+            continue
         a = {"a": e}
         for k in ("c", "p", "r", "res"):
             if k in ev:
@@ -63,12 +67,44 @@ def behaviour_of(segment):
         if e == "Step":
             a["task"] = ev.get("task")
         acts.append(a)
-    return {"top": top or ["p1", "p2", "a1"], "actions": acts,
-            "id": segment[0].get("behaviour", 0)}
+    beh = {"top": top or ["p1", "p2", "a1"], "actions": acts,
+           "id": segment[0].get("behaviour", 0),
+           "mftdue": segment[0].get("mftdue", False),
+           "objdue": segment[0].get("objdue", False)}
+    add_timing(beh)
+    return beh
+
+
+# (the lifetimes stay the normal ones, so that what is issued during a due
+# phase is not due any more once the normal values are back)
+DUE_TIMING = {"timing_publish_next_hours": 24,
+              "timing_publish_next_jitter_hours": 0,
+              "timing_publish_hours_before_next": 100,
+              "timing_roa_valid_weeks": 52,
+              "timing_roa_reissue_weeks_before": 100}
+NORMAL_TIMING = {"timing_publish_next_hours": 24,
+                 "timing_publish_next_jitter_hours": 0,
+                 "timing_publish_hours_before_next": 8,
+                 "timing_roa_valid_weeks": 52,
+                 "timing_roa_reissue_weeks_before": 4}
+
+
+def add_timing(beh):
+    """RestartDue / RestartNormal carry the timing values to restart with:
+    margins larger than the lifetimes make everything due."""
+    for a in beh["actions"]:
+        if a.get("a") == "RestartDue":
+            a["timing"] = DUE_TIMING
+        elif a.get("a") == "RestartNormal":
+            a["timing"] = NORMAL_TIMING
 
 
 def model_runs(chk, tier, cfgs=None, needed=None):
     cfgs = cfgs or (QUICK_MC if tier == "quick" else QUICK_MC + THOROUGH_MC)
+    if os.environ.get("VERIF_SKIP_MC"):
+        # (lib/run_mutations.py: the model does not depend on the code)
+        chk.cov["model_runs"] = "skipped (VERIF_SKIP_MC)"
+        return
     for cfg in cfgs:
         res = vlib.run_tlc("MC_Krill", cfg, chk.out, workers=12,
                            timeout=600 if "_q_" in cfg else 2400,
@@ -86,24 +122,40 @@ def model_runs(chk, tier, cfgs=None, needed=None):
     needed = needed or ["MCNext"]
     missing = [a for a in needed
                if chk.cov["actions_covered"].get(a, 0) == 0]
-    if missing:
+    if missing and not chk.violations:
+        # (with a violation in hand the verdict is the violation)
         raise vlib.ToolError(f"actions never taken in the model: {missing}")
 
 
 def generate(chk, themes, num, depth, seed):
     behaviours = []
     for i, theme in enumerate(themes):
+        # "tduring": operations while everything is due (a restart with due
+        # timing values at a random point of a "life" behaviour, tasks pumped
+        # and normal values restored at a later point; restarts are no-ops
+        # of the model, so they can be put anywhere)
+        src = "life" if theme == "tduring" else theme
         got = vlib.generate_behaviours(
-            "MC_Krill_gen", f"MC_Krill_gen_{theme}.cfg", chk.out, num=num,
-            depth=200, seed=seed * 31 + i, drop_last=False, timeout=900)
+            "MC_Krill_gen", f"MC_Krill_gen_{src}.cfg", chk.out, num=num,
+            depth=150, seed=seed * 31 + i, drop_last=False, timeout=900)
         for b in got:
             # the generator prints at a fixed history length; every
             # behaviour ends with a Settle so that the final state is judged
-            acts = b["actions"]
-            if len(acts) >= 2:
-                acts = acts[:-2] + [{"a": "Settle"}]
+            # (the printing invariant fires for every successor that reaches
+            # the target length: keep one behaviour per simulated trace by
+            # cutting all of them at the same point)
+            acts = b["actions"][:depth - 6] + [{"a": "Settle"}]
+            if theme == "tduring":
+                rnd = random.Random(seed * 7919 + len(acts) + i)
+                first = next((k for k, a in enumerate(acts)
+                              if a.get("a") == "Settle"), 0) + 1
+                lo = rnd.randrange(first, max(first + 1, len(acts) - 4))
+                hi = rnd.randrange(lo + 2, len(acts))
+                acts = (acts[:lo] + [{"a": "RestartDue"}] + acts[lo:hi]
+                        + [{"a": "Pump"}, {"a": "RestartNormal"}] + acts[hi:])
             b["actions"] = acts
             b["theme"] = theme
+            add_timing(b)
         # one behaviour per simulated trace: dedupe on the action list
         seen = set()
         for b in got:
@@ -248,19 +300,29 @@ def self_test(chk, trace):
 
 
 def run_property(pid, level, tier, seed, themes, quick_num, thorough_num,
-                 assumptions, rule, mc_cfgs=None, needed_events=None):
+                 assumptions, rule, mc_cfgs=None, needed_events=None,
+                 directed=None):
     chk = vlib.Check(pid, level, tier, seed)
     chk.assumptions = assumptions
     model_runs(chk, tier, cfgs=mc_cfgs)
     num = quick_num if tier == "quick" else thorough_num
     behaviours = generate(chk, themes, num, 30, seed)
+    # hand-written behaviours aimed at particular situations
+    for d in directed or []:
+        b = copy.deepcopy(d)
+        b.setdefault("top", ["p1", "p2", "a1"])
+        b.setdefault("theme", "directed")
+        b["id"] = len(behaviours)
+        add_timing(b)
+        behaviours.append(b)
     vlib.log(f"{len(behaviours)} generated behaviours ({themes})")
     for b in behaviours[:2]:
         chk.sample({"theme": b.get("theme"), "actions": b["actions"][:25]})
     trace, rej = run_and_validate(chk, pid, behaviours, "gen")
     seen = {e.get("ev") for e in trace}
     missing = [e for e in (needed_events or []) if e not in seen]
-    if missing:
+    if missing and not chk.violations:
+        # (with a violation in hand the verdict is the violation)
         raise vlib.ToolError(f"events never exercised on the code: {missing}")
     if not rej:
         self_test(chk, trace)
